@@ -18,10 +18,13 @@ inductive V where
   /-- any other object with `deconstruct()`: F, Value, CombinedExpression, … -/
   | obj (type : String) (args : VL) (kwargs : VD)
   | enum (type : String) (name : String)
+  deriving DecidableEq, Repr
 inductive VL where
   | nil | cons (v : V) (t : VL)
+  deriving DecidableEq, Repr
 inductive VD where
   | nil | cons (k : String) (v : V) (t : VD)
+  deriving DecidableEq, Repr
 end
 
 mutual
